@@ -118,7 +118,13 @@ class Analyzer:
                 inner = add(inner, self.cost_node(fn, c, chain))
             b = self.loop_bound(fn, n.get("ord", 0))
             if b == "floyd":
-                return (3, 0) if inner[0] <= 2 else (5, 0)
+                # Floyd's bottom-up construction: the sum of the sift-DOWN heights is O(n).  The exception only holds for a
+                # body whose crate calls are sift-downs; n sift-ups (bubble_up) are n log n
+                calls = [x["method"] for x in gen.walk_tree(n) if x["k"] == "MethodCall" and self.resolve(fn, x) is not None
+                         and self.cost_fn(self.resolve(fn, x), chain)[0] > 0]        # callees that compare at all
+                if inner[0] <= 2 and all(c in ("heapify", "heapify_min", "heapify_max") for c in calls):
+                    return (3, 0)
+                return mul(3, inner)
             return mul(2 if b == "log" else 3, inner)
         if k == "Binary" and n["op"] in ("<", ">", "<=", ">=", "==", "!="):
             l, r = src.t(n["left"]), src.t(n["right"])
